@@ -2,8 +2,8 @@
 from common import *
 W = 'verif_frag::walk18::'
 OBLIGATIONS = [
-    ob('C18.walk.follow.bfs', W + 'c18_walk_follow_bfs', 'the WHOLE real visit_dir and ok_to_visit_dir (verbatim on a scripted ten-node file system), `symlinks` on, breadth-first: the search goes through a link with an absolute target to an ANCESTOR (a cycle) and a link with a RELATIVE target to a directory outside - and less deep than - the root; a link to a regular file and a dangling link are just listed; every entry under the root or behind a link is listed exactly once, the ancestor is not replayed, the traversal terminates (unwinding assertions) and no error is counted', units=['walk'], complete=False, bound='one scripted tree (12 nodes: 3 levels, 4 links)'),
-    ob('C18.walk.follow.dfs', W + 'c18_walk_follow_dfs', 'the same, depth-first', units=['walk'], complete=False, bound='one scripted tree (12 nodes: 3 levels, 4 links)'),
+    ob('C18.walk.follow.bfs', W + 'c18_walk_follow_bfs', 'the WHOLE real visit_dir and ok_to_visit_dir (verbatim on a scripted 13-node file system), `symlinks` on, breadth-first: the search goes through a link with an absolute target to an ANCESTOR (a cycle) and a link with a RELATIVE target to a directory outside - and less deep than - the root; a link to the search root itself is not replayed; a link to a regular file and a dangling link are just listed; every entry under the root or behind a link is listed exactly once, the ancestor is not replayed, the traversal terminates (unwinding assertions) and no error is counted', units=['walk'], complete=False, bound='one scripted tree (13 nodes: 3 levels, 5 links)'),
+    ob('C18.walk.follow.dfs', W + 'c18_walk_follow_dfs', 'the same, depth-first', units=['walk'], complete=False, bound='one scripted tree (13 nodes: 3 levels, 5 links)'),
     ob('C18.walk.nofollow', W + 'c18_walk_nofollow', 'the same world without the option: links are listed once, no row comes from behind a link, no error', units=['walk'], complete=False, bound='one scripted tree'),
     ob('C18.ok_to_visit', 'verif_frag::traversal::c01_ok_to_visit', 'ok_to_visit_dir (verbatim on a shim world): a directory entry is entered iff its own inode was not seen before and it is not a link or links are followed; only its own inode is recorded (same harness as C01.ok_to_visit)', units=['traversal']),
 ]
